@@ -4,18 +4,28 @@ import FontVerif.Model.Interp
 import FontVerif.Model.Composite
 import FontVerif.Model.Charstring
 import FontVerif.Model.InterpLoops
+import FontVerif.Model.InterpData
+import FontVerif.Model.HintRound
 import FontVerif.Model.HintMap
+import FontVerif.Model.Carve
 namespace FontVerif.Drv.C02
 open FontVerif FontVerif.Interp
 
 def progName (p : Nat) : String := if p = 0 then "Font" else if p = 1 then "ControlValue" else "Glyph"
 
-open FontVerif.InterpLoops in
-def mkCfg (font cv glyph : List Nat) (limit : Nat) (ped : Bool) : Cfg G :=
-  { font := font.toArray, cv := cv.toArray, glyph := glyph.toArray, limit := limit, pedantic := ped,
-    sem := semLoops ped }
+open FontVerif.InterpLoops FontVerif.InterpData in
+/-- the oracle of the correspondence runs: rounding through Model/HintRound.lean; values computed from point
+    coordinates are 0 (a run in which such a value stays live is reported as `tainted`, see `runD`) -/
+def drvArith : Arith :=
+  { round := fun m t ph pe d => (HintRound.round m t ph pe d).getD 0,
+    coord := fun _ => 0, vec := fun _ => (0x4000, 0), touched := fun _ _ => false }
 
-/-- `HintErrorKind` names of the data-opcode errors of Model/InterpLoops.lean -/
+open FontVerif.InterpLoops FontVerif.InterpData in
+def mkCfg (font cv glyph : List Nat) (limit : Nat) (ped : Bool) : Cfg F :=
+  { font := font.toArray, cv := cv.toArray, glyph := glyph.toArray, limit := limit, pedantic := ped,
+    sem := semAll drvArith ped }
+
+/-- `HintErrorKind` names of the data-opcode errors of Model/InterpLoops.lean / Model/InterpData.lean -/
 def errName (e : Err) : String :=
   match e with
   | .data 1001 => "InvalidPointIndex"
@@ -25,28 +35,56 @@ def errName (e : Err) : String :=
   | .data 1005 => "NegativeLoopCounter"
   | .data 1006 => "InvalidStackValue"
   | .data 1007 => "InvalidCvtIndex"
+  | .data 1008 => "InvalidStorageIndex"
+  | .data 1009 => "DivideByZero"
+  | .data 1999 => "PANIC"
   | e => e.name
 
 def renderErr {D} (stage : String) (s : St D) (e : Err) : String :=
   s!"{stage}:err:{errName e}:{progName s.current}:{s.pc}"
 
-open FontVerif.InterpLoops in
-/-- `interp <limitFontCv> <limitGlyph> <stackCap> <nFuncs> <nIdefs> <glyphPoints> <twilightPoints> <cvtLen> <fpgm> <prep> <glyph|none>`:
-    HintInstance::reconfigure (font program, then control value program on the same engine — the value stack is
-    not cleared in between, the graphics state is reset; the glyph zone is empty) and, when a glyph program is given,
-    HintInstance::hint in pedantic mode on a glyph with `glyphPoints` points (+ 4 phantom points) in one contour. -/
-def interp (limFC limG cap nF nI nPts nTwi nCvt : Nat) (font cv : List Nat) (glyph : Option (List Nat)) : String :=
+open FontVerif.InterpData in
+/-- the run loop of the driver: `Interp.run`, but it stops (`true`) as soon as an oracle value may influence the rest of
+    the run: `taint` is set, or a data opcode left an oracle value on the stack (`pend`) and the next instruction is
+    not POP -/
+def runD (c : Cfg F) : Nat → St F → St F × Bool
+  | 0, s => (s, false)
+  | n + 1, s =>
+    match s.status with
+    | .running =>
+      let s1 := step c s
+      if s1.data.taint then (s1, true)
+      else if s1.data.pend && s1.status == .running then
+        match decode (c.code s1.current) s1.pc with
+        | .ins op _ _ _ => if op = 0x21 then runD c n s1 else (s1, true)
+        | _ => runD c n s1
+      else runD c n s1
+    | _ => (s, false)
+
+open FontVerif.InterpLoops FontVerif.InterpData in
+/-- `interp <limitFontCv> <limitGlyph> <stackCap> <nFuncs> <nIdefs> <glyphPoints> <twilightPoints> <cvtLen> <storageLen> <scale> <fpgm> <prep> <glyph|none>`:
+    HintInstance::reconfigure (font program, then control value program on the same engine — the value stack, the
+    storage area, the cvt and the retained graphics state carry over, everything else is reset; the glyph zone is
+    empty) and, when a glyph program is given and `instruct_control & 1 == 0`, HintInstance::hint in pedantic mode on
+    a glyph with `glyphPoints` points (+ 4 phantom points) in one contour, with copy-on-write cvt / storage.
+    Target::Mono at 16 ppem; the cvt table is all zeros. -/
+def interp (limFC limG cap nF nI nPts nTwi nCvt nSto : Nat) (scale : Int) (font cv : List Nat) (glyph : Option (List Nat)) : String :=
   let c := mkCfg font cv [] limFC false
   let blank : List Def := (List.range nF).map (fun _ => {})
   let blankI : List Def := (List.range nI).map (fun _ => {})
+  let zeros (n : Nat) : List Int := (List.range n).map (fun _ => 0)
   let g0 : G := { cap := cap, twiPts := nTwi, cvtLen := nCvt, ppem := 16 }
-  let s1 := run c (initSt 0 blank blankI [] { g0 with bc := true })
+  let f0 : F := { g := g0, storage := ⟨[], zeros nSto, true⟩, cvt := ⟨[], zeros nCvt, true⟩, scale := scale }
+  let fuel := MAX_RUN_INSTRUCTIONS + 2
+  let (s1, t1) := runD c fuel (initSt 0 blank blankI [] (f0.reset 0))
+  if t1 then "tainted" else
   match s1.status with
   | .failed e => renderErr "new" s1 e
   | .stuck => "stuck"
   | .running => "running"
   | .done =>
-    let s2 := run c (initSt 1 s1.funcs s1.idefs s1.vs g0)
+    let (s2, t2) := runD c fuel (initSt 1 s1.funcs s1.idefs s1.vs (s1.data.reset 1))
+    if t2 then "tainted" else
     match s2.status with
     | .failed e => renderErr "new" s2 e
     | .stuck => "stuck"
@@ -55,9 +93,15 @@ def interp (limFC limG cap nF nI nPts nTwi nCvt : Nat) (font cv : List Nat) (gly
       match glyph with
       | none => "ok"
       | some g =>
+        if s2.data.instructControl % 2 = 1 then "ok"   -- `HintInstance::is_enabled()` is false: drawn unhinted
+        else
         let cg := mkCfg font cv g limG true
-        let gg : G := { g0 with glyphPts := nPts + 4, glyphContours := [nPts - 1] }
-        let s3 := run cg (initSt 2 s2.funcs s2.idefs [] gg)
+        let fin := s2.data
+        let fg : F := { fin with g := { fin.g with glyphPts := nPts + 4, glyphContours := [nPts - 1] },
+                                 storage := ⟨fin.storage.dataMut, zeros nSto, false⟩,
+                                 cvt := ⟨fin.cvt.dataMut, zeros nCvt, false⟩ }
+        let (s3, t3) := runD cg fuel (initSt 2 s2.funcs s2.idefs [] (fg.reset 2))
+        if t3 then "tainted" else
         match s3.status with
         | .failed e => renderErr "draw" s3 e
         | .stuck => "stuck"
@@ -81,7 +125,13 @@ def composite (gid : Nat) (gs : Array GlyphInfo) : String :=
   match Composite.outline G gid with
   | .error _ => "none"
   | .ok o =>
-    s!"ok p={o.points + 4} c={o.contours} ms={o.maxSimple} mo={o.maxOther} ds={o.maxDeltaStack} h={if o.hasHinting then 1 else 0}"
+    -- `OutlineGlyph::draw_memory_size(Hinting::None / Embedded)`: `Outline::required_buffer_size` of the counters and
+    -- of the limits of the harness font (maxStackElements 16 + 32, maxTwilightPoints 0 + 4, no storage, no cvt, no gvar)
+    let cnt : Carve.Counts :=
+      { points := o.points + 4, contours := o.contours, maxSimplePoints := o.maxSimple, maxOtherPoints := o.maxOther,
+        maxComponentDeltaStack := o.maxDeltaStack, maxStack := 48, cvtCount := 0, storageCount := 0,
+        maxTwilightPoints := 4, hasHinting := o.hasHinting, hasVariations := false }
+    s!"ok p={o.points + 4} c={o.contours} ms={o.maxSimple} mo={o.maxOther} ds={o.maxDeltaStack} h={if o.hasHinting then 1 else 0} sz={Carve.requiredBufferSize cnt false},{Carve.requiredBufferSize cnt true}"
 
 /-! charstrings (Model/Charstring.lean) -/
 namespace CS
@@ -156,14 +206,14 @@ def hintmap (ops : List String) : String :=
 
 def handle (cmd : String) (args : List String) : Option String :=
   match cmd, args with
-  | "interp", [a, b, cp, nf, ni, np, nt, nc, f, p, g] =>
-    match parseNats? [a, b, cp, nf, ni, np, nt, nc], parseHex? f, parseHex? p with
-    | some [a, b, cp, nf, ni, np, nt, nc], some f, some p =>
-      if g = "none" then some (interp a b cp nf ni np nt nc f p none)
+  | "interp", [a, b, cp, nf, ni, np, nt, nc, ns, sc, f, p, g] =>
+    match parseNats? [a, b, cp, nf, ni, np, nt, nc, ns], parseInt? sc, parseHex? f, parseHex? p with
+    | some [a, b, cp, nf, ni, np, nt, nc, ns], some sc, some f, some p =>
+      if g = "none" then some (interp a b cp nf ni np nt nc ns sc f p none)
       else match parseHex? g with
-        | some g => some (interp a b cp nf ni np nt nc f p (some g))
+        | some g => some (interp a b cp nf ni np nt nc ns sc f p (some g))
         | none => some "bad-args"
-    | _, _, _ => some "bad-args"
+    | _, _, _, _ => some "bad-args"
   | "hintmap", ops => some (hintmap (if ops = ["-"] then [] else ops))
   | "composite", [g, spec] =>
     match parseNat? g, (spec.splitOn ",").mapM parseGlyph with
